@@ -1,10 +1,10 @@
 (* C12 — const parameters act as literal substitution; missing/mistyped ones are errors.
    This file only states the property theorems; proofs live in Compile/ConstsProofs.v.
    All theorems are about [repaired] = the model of compile_with_constants with the proposed
-   fixes 1-8 applied; the behaviour of the code as found is refuted by the Examples
+   fixes 1-9 applied; the behaviour of the code as found is refuted by the Examples
    [*_refuted] of ConstsProofs.v. *)
 From Coq Require Import Permutation.
-From GV Require Import Base.Util Compile.Consts Compile.ConstsProofs.
+From GV Require Import Base.Util Compile.Consts Compile.ConstsProofs Compile.ConstsCheck.
 
 (* resolution = documented meaning, at the level of one const expression: for a well-typed
    expression of a number const of type t, whose external constants and earlier consts are
@@ -95,3 +95,13 @@ Theorem C12_total :
                     wire_params repaired sizes params = Crash).
 Proof. exact consts_total. Qed.
 Print Assumptions C12_total.
+
+(* the link between the checker and the hypothesis [wt_defs] of the theorems above that concerns
+   external constants: a program the checker accepts uses every external constant at the one
+   type recorded in const_deps, i.e. the type the compiler tests the supplied literal against
+   (false of the tree as found: ConstsCheck.checker_one_type_refuted_original; fix 9) *)
+Theorem C12_checker_one_type :
+  forall defs, fst (check_defs repaired defs) = [] ->
+  forall x, In x defs -> ext_ok (snd (check_defs repaired defs)) (cd_ty x) (cd_val x) = true.
+Proof. exact checker_one_type. Qed.
+Print Assumptions C12_checker_one_type.
